@@ -77,9 +77,9 @@ func isRegular(t *tm.Term) bool {
 }
 
 func runC06(c *core.Ctx, r *core.Result) {
-	p := plan{fullDepth: 2, coreDepth: 3, strDepth: 2, alphabet: tm.HOSTILE}
+	p := plan{fullDepth: 3, coreDepth: 4, strDepth: 2, alphabet: tm.HOSTILE}
 	if c.Thorough() {
-		p = plan{fullDepth: 3, coreDepth: 4, strDepth: 2, pairDepth: 1, alphabet: tm.HOSTILE}
+		p = plan{fullDepth: 4, coreDepth: 5, strDepth: 2, pairDepth: 1, alphabet: tm.HOSTILE}
 	}
 	r.Bounds = p.String() + "; states local / decoded at a knowing process / opaque (decoded at a process that knows no type); verbs %v %s %+v (grammar, congruence) and %q %x %X (refusal)"
 	r.Rule = "state = (term, strings, local|decoded|opaque, verb); non-trivial = the redactable rendering contains at least one marker pair; congruence is decided only for regular strings (the property's restriction)"
